@@ -759,3 +759,226 @@ def explore(harness, max_paths=20000, seed=0, ob_timeout=60000, start=None, dept
         finally:
             CTX = None
     return res
+
+
+# ---------------------------------------------------------------------------------------------- symbolic strings
+def _sterm(x):
+    if isinstance(x, SymStr):
+        return x.e
+    if isinstance(x, str):
+        return z3.StringVal(x)
+    raise TypeError(type(x))
+
+
+def ci_regex(word):
+    """regex matching `word` in any letter case"""
+    parts = []
+    for ch in word:
+        if ch.lower() != ch.upper():
+            parts.append(z3.Union(z3.Re(ch.lower()), z3.Re(ch.upper())))
+        else:
+            parts.append(z3.Re(ch))
+    return z3.Concat(*parts) if len(parts) > 1 else parts[0]
+
+
+class _Lowered(object):
+    """value.lower(): only comparison with a constant is supported (case-insensitive regex membership)"""
+
+    def __init__(self, s, upper=False):
+        self.s = s
+        self.upper = upper
+
+    def __eq__(self, o):
+        if isinstance(o, str) and not isinstance(o, SymStr):
+            if (o.upper() if self.upper else o.lower()) != o:
+                return False
+            return SymBool(z3.InRe(self.s.e, ci_regex(o)))
+        return NotImplemented
+
+    def __ne__(self, o):
+        r = self.__eq__(o)
+        if r is NotImplemented:
+            return r
+        return (not r) if isinstance(r, bool) else ~r
+
+    __hash__ = None
+
+    def __contains__(self, o):
+        raise Inconclusive("substring test on a lower-cased symbolic string")
+
+
+class SymStr(str):
+    """symbolic string: a str subclass (so isinstance checks and str-typed APIs accept it) whose payload is an
+    unmistakable marker; every semantic operation is overridden to build z3 terms.  C-level functions that would
+    read the payload (int(), float(), os.path.*, open, str.format of a container) must be shadowed in the analysed module."""
+    MARK = '⟪SYMSTR⟫'
+
+    def __new__(cls, e):
+        self = str.__new__(cls, cls.MARK)
+        self.e = e
+        return self
+
+    @staticmethod
+    def const(s):
+        return SymStr(z3.StringVal(s))
+
+    def __hash__(self):
+        return 0
+
+    def __eq__(self, o):
+        if isinstance(o, str):
+            return SymBool(self.e == _sterm(o))
+        if isinstance(o, _Lowered):
+            return NotImplemented
+        return False
+
+    def __ne__(self, o):
+        if isinstance(o, str):
+            return SymBool(self.e != _sterm(o))
+        return True
+
+    def __add__(self, o):
+        if isinstance(o, str):
+            return SymStr(z3.Concat(self.e, _sterm(o)))
+        return NotImplemented
+
+    def __radd__(self, o):
+        if isinstance(o, str):
+            return SymStr(z3.Concat(_sterm(o), self.e))
+        return NotImplemented
+
+    def startswith(self, p, *a):
+        if a:
+            raise Inconclusive("startswith with offsets")
+        if isinstance(p, tuple):
+            return SymBool(z3.Or(*[z3.PrefixOf(_sterm(x), self.e) for x in p]))
+        return SymBool(z3.PrefixOf(_sterm(p), self.e))
+
+    def endswith(self, p, *a):
+        if a:
+            raise Inconclusive("endswith with offsets")
+        return SymBool(z3.SuffixOf(_sterm(p), self.e))
+
+    def __contains__(self, o):
+        return CTX.decide(z3.Contains(self.e, _sterm(o)))
+
+    def lower(self):
+        return _Lowered(self)
+
+    def upper(self):
+        return _Lowered(self, True)
+
+    def __len__(self):
+        return CTX.choose_int(z3.Length(self.e), 0, 12)
+
+    def __bool__(self):
+        return CTX.decide(z3.Length(self.e) > 0)
+
+    def __str__(self):
+        return self
+
+    def __repr__(self):
+        return 'SymStr(%s)' % self.e
+
+    def __format__(self, spec):
+        raise Inconclusive("a symbolic string reached str.format")
+
+    def __mod__(self, o):
+        raise Inconclusive("a symbolic string reached % formatting")
+
+    def _no(self, *a, **k):
+        raise Inconclusive("unsupported str method on a symbolic string")
+    strip = lstrip = rstrip = split = rsplit = replace = join = encode = find = index = title = capitalize = _no
+    isdigit = isalpha = isalnum = isspace = partition = splitlines = zfill = casefold = _no
+    __getitem__ = __iter__ = __mul__ = __rmul__ = __lt__ = __le__ = __gt__ = __ge__ = _no
+
+
+class SymDict(dict):
+    """a dict whose lookups work for symbolic keys: membership / get / [] compare the key with every stored key
+    through solver-decided equality (forking), instead of relying on hashes"""
+
+    def _find(self, k):
+        if not isinstance(k, SymStr):
+            return dict.__contains__(self, k), k
+        for key in dict.keys(self):
+            if isinstance(key, str) and bool(k == key):
+                return True, key
+        return False, None
+
+    def __contains__(self, k):
+        return self._find(k)[0]
+
+    def __getitem__(self, k):
+        ok, key = self._find(k)
+        if not ok:
+            raise KeyError(k)
+        return dict.__getitem__(self, key)
+
+    def get(self, k, default=None):
+        ok, key = self._find(k)
+        return dict.__getitem__(self, key) if ok else default
+
+
+INT_TEXT = None
+FLOAT_TEXT = None
+
+
+def _number_grammars():
+    """accepted-text languages of Python's int(str) and float(str) (documented literal grammars)"""
+    global INT_TEXT, FLOAT_TEXT
+    if INT_TEXT is not None:
+        return
+    ws = z3.Star(z3.Union(*[z3.Re(c) for c in ' \t\n\r\x0b\x0c']))
+    digit = z3.Range('0', '9')
+    digits = z3.Concat(z3.Plus(digit), z3.Star(z3.Concat(z3.Re('_'), z3.Plus(digit))))
+    sign = z3.Option(z3.Union(z3.Re('+'), z3.Re('-')))
+    INT_TEXT = z3.Concat(ws, sign, digits, ws)
+    exp = z3.Option(z3.Concat(z3.Union(z3.Re('e'), z3.Re('E')), sign, digits))
+    point = z3.Union(z3.Concat(digits, z3.Option(z3.Concat(z3.Re('.'), z3.Option(digits)))), z3.Concat(z3.Re('.'), digits))
+    special = z3.Union(ci_regex('inf'), ci_regex('infinity'), ci_regex('nan'))
+    FLOAT_TEXT = z3.Concat(ws, sign, z3.Union(z3.Concat(point, exp), special), ws)
+
+
+_TEXTNUM = {}
+
+
+def text_to_number(s, kind):
+    """value of int(text)/float(text) as an uninterpreted function of the text (same text, same number)"""
+    key = (kind, s.e.get_id())
+    hit = _TEXTNUM.get(key)
+    if hit is not None and hit[0].eq(s.e):
+        return hit[1]
+    f = z3.Function('text_to_%s' % kind, z3.StringSort(), z3.RealSort())
+    v = f(s.e)
+    if len(_TEXTNUM) > 5000:
+        _TEXTNUM.clear()
+    _TEXTNUM[key] = (s.e, v)
+    return v
+
+
+def symint_text(x=0, *a):
+    """stand-in for builtin int() in analysed modules: symbolic numbers and symbolic strings are handled
+    symbolically (contract S-float/int), everything else goes to the builtin"""
+    if isinstance(x, SymNum):
+        return symint(x)
+    if isinstance(x, SymStr):
+        _number_grammars()
+        if CTX.decide(z3.InRe(x.e, INT_TEXT)):
+            v = text_to_number(x, 'int')
+            CTX.assume(z3.IsInt(v))
+            plain = z3.InRe(x.e, z3.Plus(z3.Range('0', '9')))
+            CTX.assume(z3.Implies(plain, v == z3.ToReal(z3.StrToInt(x.e))))
+            return SymNum(v, 'i')
+        raise ValueError("invalid literal for int() with base 10: <symbolic>")
+    return int(x, *a)
+
+
+def symfloat_text(x=0.0):
+    if isinstance(x, SymNum):
+        return symfloat(x)
+    if isinstance(x, SymStr):
+        _number_grammars()
+        if CTX.decide(z3.InRe(x.e, FLOAT_TEXT)):
+            return SymNum(text_to_number(x, 'float'), 'f')
+        raise ValueError("could not convert string to float: <symbolic>")
+    return float(x)
